@@ -23,6 +23,7 @@ const (
 	multiExtentPartSize    sizeBytes   = 0xFFFFF800
 	maxPartSize            sizeBytes   = 0xFFFFFFFF
 	basePadSectors         sizeSectors = 0x20
+	maxDirEntrySize        sizeBytes   = 0xFF // record length is stored in one byte
 	volumeDescriptorsCount sizeSectors = 3
 
 	dotEntryIdentifier    = stringD1(byte(0))
@@ -355,6 +356,10 @@ func (viso *VirtualISO) makeDirEntries(item *dirItem, joliet bool) error {
 				lba += multiExtentPartSize.sectors()
 			}
 
+			if entry.size() > maxDirEntrySize {
+				return fmt.Errorf("name of file %s is too long for directory record", fileItem.path)
+			}
+
 			if joliet {
 				item.dirEntryJoliet = append(item.dirEntryJoliet, entry)
 			} else {
@@ -380,6 +385,10 @@ func (viso *VirtualISO) makeDirEntries(item *dirItem, joliet bool) error {
 			VolumeSequenceNumber: 1,
 			RecordingDateTime:    recordingTimestamp(dirItem.modTime),
 			Identifier:           makeIdentifier(dirItem.name, joliet),
+		}
+
+		if entry.size() > maxDirEntrySize {
+			return fmt.Errorf("name of directory %s is too long for directory record", dirItem.path)
 		}
 
 		if joliet {
